@@ -19,7 +19,7 @@ func init() {
 			Property: "C01",
 			Rule: "every YarnCore program of the families F1 (control skeletons: line, option group with bodies, if/elseif/else, set, jump, stop over 1-3 nodes), " +
 				"F2 (nestings of option groups and ifs to depth 3 with lines before, inside and after every body), F3 (F1 plus declare, call, command, jump by expression) " +
-				"HUB (one jump-by-expression statement re-executed three times with another destination each time: 7 destination expressions over variables x 3 placements x 2 room orders), F1-layout (the F1 family under CRLF / CR / tab layouts with a blank, comment or whitespace-only line before every body line), ARGS (every argument of Next at steps that do not follow a choice) " +
+				"HUB (one jump-by-expression statement re-executed three times with another destination each time: 7 destination expressions over variables x 3 placements x 2 room orders), F1-layout (the F1 family under CRLF / CR / tab layouts with a blank, comment or whitespace-only line before every body line), ARGS (every argument of Next at steps that do not follow a choice), F1-refused (one host operation that the library refuses - a restore naming an unknown node, a registration of something that is no function - at every point of every path: nothing changes) " +
 				"and R (every distribution of the nodes over readers) up to the statement bound, times every choice sequence, executed on a fresh real runner in lock-step with the reference interpreter; " +
 				"a case is one (program, path); non-trivial = the path contains at least one choice, jump, if or stop",
 			StatesMean:  "runner states visited = (program, trace prefix) pairs; transitions = real Next calls compared with the model",
@@ -126,6 +126,29 @@ func runC01(ctx *report.Ctx) {
 			}
 		}
 		walkProgram(ctx, c, "F1-layout", p, stdHost, wo, lay)
+	})
+
+	// F1-refused: the F1 family (one statement less) where, between any two steps or before the first, the host performs one
+	// operation the library refuses (RestoreAt of a snapshot naming an unknown node, registration of values that are no
+	// functions / commands under new and existing names): the dialogue goes on as if nothing had been tried - a pending
+	// choice is still pending, the flow, the variables and the handlers are what they were
+	ctx.Bound("F1-refused", fmt.Sprintf("F1 alphabet plus command / call / command completed after one poll, <=%d statements over 1..2 nodes, one refused host operation at every point of every path", f1size-1))
+	part(ctx, "F1-refused", -1, func(c *explore.Chooser) {
+		extra := map[string]func(g *progGen) *yc.Stmt{
+			"cmd":  func(g *progGen) *yc.Stmt { return yc.Command("act", yc.CmdArg{Word: fmt.Sprint(g.lineNo)}) },
+			"call": func(g *progGen) *yc.Stmt { return yc.Call("note", yc.ENumber(float64(g.lineNo))) },
+			"dcmd": func(g *progGen) *yc.Stmt {
+				return yc.Command([]string{"later", "laterfail"}[g.c.Choose(2, "fails")], yc.CmdArg{Word: fmt.Sprint(g.lineNo)})
+			},
+		}
+		g := &progGen{c: c, rem: f1size - 1, kinds: []string{"line", "opts", "if", "setT", "jump", "stop", "cmd", "call", "dcmd"}, maxDepth: 2, maxOpts: 2, maxCl: 1, conds: condsF, extra: extra}
+		p := g.program(f1nodes)
+		if !c.Mine() {
+			return
+		}
+		wr := wo
+		wr.Refusals = 1
+		walkProgram(ctx, c, "F1-refused", p, stdHost, wr, nil)
 	})
 
 	// F1c: one generated node (plus a fixed jump target), one more statement
